@@ -113,8 +113,66 @@ def judgeSingle (cmd : Cmd) (ps : List Str) (r0 : Req) (host path q : Str) (hdrS
     if host == want.host && path == want.path && q == want.rawQuery && hdrS == (field (renderReq want) "hdr").getD "?" then "ok"
     else "FAIL:effect-" ++ cmd.name
 
+def renderHdrOnly (h : List (Str × List Str)) : String :=
+  (field (renderReq { host := [], path := [], rawQuery := [], hdr := h }) "hdr").getD "-"
+
+/-- `hd` ops: mod_header -/
+def runHd (hdrs actsS impl : String) : Ans :=
+  let acts := (actsS.splitOn ";").map parseAct
+  let h0 := parseHdrs hdrs
+  let checked := acts.map fun a => headerCheck (sOf a.1) a.2
+  match checked.findSome? fun c => match c with | .error e => some e | .ok _ => none with
+  | some e => { model := "rej:" ++ e, verdict := "ok", tags := ["hd", "rej", "rej-" ++ e] }
+  | none =>
+    let cmds := checked.filterMap fun c => match c with | .ok x => some x | .error _ => none
+    let h := cmds.foldl (fun h a => doHeader a.1 a.2 h) h0
+    let m := "ok hdr=" ++ renderHdrOnly h
+    let v :=
+      if impl.startsWith "rej:" then "FAIL:documented-rejected-header"
+      else match cmds with
+        | [(c, ps)] =>
+          -- documented effect (mod_header.md): SET = exactly that value, ADD = appended, DEL = gone; others untouched
+          let k := canon (ps.getD 0 [])
+          let want : List (Str × List Str) :=
+            match c with
+            | .set => (h0.filter (·.1 != k)) ++ [(k, [ps.getD 1 []])]
+            | .add => (h0.filter (·.1 != k)) ++ [(k, ((h0.find? (·.1 == k)).map (·.2)).getD [] ++ [ps.getD 1 []])]
+            | .del => h0.filter (·.1 != k)
+            | _ => h
+          if impl == "ok hdr=" ++ renderHdrOnly want then "ok" else "FAIL:header-effect"
+        | _ => "ok"
+    { model := m, verdict := v
+      tags := ["hd"] ++ cmds.map (fun a => (reprStr a.1)) ++ (if cmds.length > 1 then ["multi"] else ["single"]) ++
+              (if renderHdrOnly h != renderHdrOnly h0 then ["nt"] else []) }
+
+/-- `rd` ops: mod_redirect -/
+def runRd (host path rawq actsS impl : String) : Ans :=
+  let acts := (actsS.splitOn ";").map fun a =>
+    let hasColon := (a.splitOn ":").length > 1
+    let pa := parseAct a
+    (sOf pa.1, if hasColon then some pa.2 else none)
+  let q : Str := if rawq == "-" then [] else rawq.toList
+  match redirectCheck acts with
+  | .error e => { model := "rej:" ++ e, verdict := "ok", tags := ["rd", "rej", "rej-" ++ e] }
+  | .ok (c, p) =>
+    let u := doRedirect c p host.toList path.toList q
+    let m := "ok url=" ++ (if u.isEmpty then "-" else sOf u)
+    -- documented effect (mod_redirect.md), written out independently of `doRedirect`
+    let uri := path ++ (if q.isEmpty then "" else "?" ++ sOf q)
+    let want : String :=
+      match c with
+      | .urlSet => sOf p
+      | .urlFromQuery => (((parseQuery q).filter (·.1 == p)).head?.map fun e => sOf e.2).getD ""
+      | .urlPrefixAdd => sOf p ++ uri
+      | .schemeSet => sOf p ++ "://" ++ host ++ uri
+    let v := if impl == "ok url=" ++ (if want.isEmpty then "-" else want) then "ok"
+             else if impl.startsWith "rej:" then "FAIL:documented-rejected-redirect" else "FAIL:redirect-effect"
+    { model := m, verdict := v, tags := ["rd", reprStr c, "nt"] }
+
 def run (op impl : String) : Ans :=
   match op.splitOn " " with
+  | ["hd", _, hdrs, actsS] => runHd hdrs actsS impl
+  | ["rd", host, path, rawq, actsS] => runRd host path rawq actsS impl
   | [loader, host, path, rawq, hdrs, actsS] =>
     let acts := (actsS.splitOn ";").map parseAct
     let r0 : Req := { host := host.toList, path := path.toList, rawQuery := if rawq == "-" then [] else rawq.toList,
